@@ -341,7 +341,15 @@ def check(ctx):
 
     # ---- C06.e world reactors revoke what they registered ----
     n_wr = 0
-    for tyname, resfield in (("Reactor", "sys_command"), ("EntityReactor", "sys_command")):
+    def _res_field(res_name, dflt):
+        # the field of the reactor's resource that holds its system id (by type: private fields may be renamed)
+        try:
+            ad_ = prog.adt_by_name(res_name)
+            fs_ = [f["name"] for f in ad_["variants"][0]["fields"] if f["ty"].endswith("::SystemCommand")]
+            return fs_[0] if len(fs_) == 1 else dflt
+        except (mir.AnchorLost, KeyError, IndexError):
+            return dflt
+    for tyname, resfield in (("Reactor", _res_field("WorldReactorRes", "sys_command")), ("EntityReactor", _res_field("EntityWorldReactorRes", "sys_command"))):
         for m in A.methods_of(prog, tyname):
             nm = m.raw.get("name")
             uses = []
